@@ -20,7 +20,7 @@ import (
 
 func TestVerifC09Sockets(t *testing.T) {
 	L := ev.Begin("C09", "c09-sockets", "exploration",
-		"real loopback sockets through the real ServeTCP of tcp / tcp+sni / tcp-dynamic: the finishing side {client uploads then closes, upstream sends then closes} x size {64 kB, 8 MB (more than the socket buffers hold)} x a receiver that reads slowly (64 kB per ms); oracle: the receiver gets every byte (sha256) followed by a clean EOF, not a reset. non-trivial = every scenario")
+		"real loopback sockets through the real ServeTCP of tcp / tcp+sni / tcp-dynamic: the finishing side {client uploads then closes, upstream sends then closes} x size {64 kB, 8 MB (more than the socket buffers hold)} x a receiver that reads slowly (64 kB per ms); oracle: the receiver gets every byte (sha256) followed by a clean EOF, not a reset; and through tcp.Server with read/write timeouts: a client silent for longer than the write timeout can still send afterwards. non-trivial = every scenario")
 	for _, kind := range []string{"tcp", "sni", "dynamic"} {
 		for _, dir := range []string{"upload", "download"} {
 			for _, size := range []int{64 << 10, 8 << 20} {
@@ -160,6 +160,77 @@ func TestVerifC09Sockets(t *testing.T) {
 				up.Close()
 				front.Close()
 			}
+		}
+	}
+	// listener timeouts: tcp.Server wraps accepted connections so that a read
+	// (write) timeout bounds each read (write) - and nothing else. A tunnel whose
+	// client is silent for longer than the WRITE timeout must stay up.
+	for _, kind := range []string{"tcp", "dynamic"} {
+		for _, to := range []struct {
+			name   string
+			rt, wt time.Duration
+		}{{"write-timeout-only", 0, 150 * time.Millisecond}, {"long-read-short-write", 5 * time.Second, 150 * time.Millisecond}, {"no-timeouts", 0, 0}} {
+			up, err := net.Listen("tcp", "127.0.0.1:0")
+			if err != nil {
+				panic(err)
+			}
+			tb, err := route.NewTable(bytes.NewBufferString(fmt.Sprintf("route add svc :1234 tcp://%s opts \"proto=tcp\"\n", up.Addr().String())))
+			if err != nil {
+				panic(err)
+			}
+			var target *route.Target
+			for _, rs := range tb {
+				target = rs[0].Targets[0]
+			}
+			lookup := func(string) *route.Target { return target }
+			var h Handler = &Proxy{Lookup: lookup, DialTimeout: 5 * time.Second}
+			if kind == "dynamic" {
+				h = &DynamicProxy{Lookup: lookup, DialTimeout: 5 * time.Second}
+			}
+			front, err := net.Listen("tcp", "127.0.0.1:0")
+			if err != nil {
+				panic(err)
+			}
+			srv := &Server{Handler: h, ReadTimeout: to.rt, WriteTimeout: to.wt}
+			go srv.Serve(front)
+			got := make(chan string, 1)
+			go func() {
+				c, err := up.Accept()
+				if err != nil {
+					got <- "accept: " + err.Error()
+					return
+				}
+				defer c.Close()
+				c.Write([]byte("greeting")) // the upstream speaks first: the proxy writes to the client
+				c.SetReadDeadline(time.Now().Add(20 * time.Second))
+				b := make([]byte, 64)
+				n, err := c.Read(b)
+				if err != nil {
+					got <- "read: " + err.Error()
+					return
+				}
+				got <- string(b[:n])
+			}()
+			cl, err := net.Dial("tcp", front.Addr().String())
+			if err != nil {
+				panic(err)
+			}
+			cl.SetDeadline(time.Now().Add(20 * time.Second))
+			b := make([]byte, 64)
+			n, _ := cl.Read(b)
+			time.Sleep(4 * to.wt) // the client stays silent for longer than the write timeout (a stimulus, not an oracle)
+			cl.Write([]byte("request-after-silence"))
+			res := <-got
+			cl.Close()
+			L.Case()
+			L.NontrivialKey(fmt.Sprint("timeouts", kind, to.name))
+			d := map[string]interface{}{"listener": kind, "timeouts": to.name, "client_got": string(b[:n]), "upstream_got": res}
+			L.Sample(d)
+			if string(b[:n]) != "greeting" || res != "request-after-silence" {
+				L.Violation("tunnel-torn-down-by-a-timeout-of-the-other-direction/"+kind+"/"+to.name, d)
+			}
+			srv.Close()
+			up.Close()
 		}
 	}
 	L.End(true)
